@@ -1040,36 +1040,75 @@ func checkGapComparedInFull(c *Ctx) {
 		return
 	}
 	gap := fn.Params[0]
-	fromLen := func(v ssa.Value) bool {
-		sub, ok := v.(*ssa.BinOp)
-		if !ok || sub.Op != token.SUB {
+	// values derived from the gap parameter by slicing
+	derivedFromGap := func(v ssa.Value) bool {
+		for d := 0; d < 6; d++ {
+			if v == ssa.Value(gap) {
+				return true
+			}
+			sl, ok := v.(*ssa.Slice)
+			if !ok {
+				return false
+			}
+			v = sl.X
+		}
+		return false
+	}
+	// a bound that comes out of a search (any call other than len) inside the gap
+	var searched func(v ssa.Value, d int) bool
+	searched = func(v ssa.Value, d int) bool {
+		if v == nil || d > 6 {
 			return false
 		}
-		if k, ok := constInt(sub.Y); !ok || k != 1 {
-			return false
+		switch x := v.(type) {
+		case *ssa.Call:
+			if b, ok := x.Call.Value.(*ssa.Builtin); ok && (b.Name() == "len" || b.Name() == "cap" || b.Name() == "min" || b.Name() == "max") {
+				for _, a := range x.Call.Args {
+					if searched(a, d+1) {
+						return true
+					}
+				}
+				return false
+			}
+			return true
+		case *ssa.BinOp:
+			return searched(x.X, d+1) || searched(x.Y, d+1)
+		case *ssa.Convert:
+			return searched(x.X, d+1)
+		case *ssa.Extract:
+			return searched(x.Tuple, d+1)
+		case *ssa.Phi:
+			for _, e := range x.Edges {
+				if searched(e, d+1) {
+					return true
+				}
+			}
 		}
-		la := lenArgOf(sub.X)
-		return la == ssa.Value(gap)
+		return false
 	}
 	nSlices, bad := 0, ""
 	lastTested := false
 	eachInstr(fn, func(_ *ssa.BasicBlock, _ int, i ssa.Instruction) {
 		switch x := i.(type) {
 		case *ssa.Slice:
-			if x.X != ssa.Value(gap) {
+			if !derivedFromGap(x.X) {
 				return
 			}
 			nSlices++
-			if x.High == nil || !fromLen(x.High) {
+			if searched(x.High, 0) || searched(x.Low, 0) {
 				bad = p.Pos(x.Pos())
 			}
 		case *ssa.IndexAddr:
-			if x.X == ssa.Value(gap) && fromLen(x.Index) {
-				lastTested = true
+			if derivedFromGap(x.X) {
+				if sub, ok := x.Index.(*ssa.BinOp); ok && sub.Op == token.SUB && lenArgOf(sub.X) != nil {
+					lastTested = true
+				}
 			}
 		case *ssa.Index:
-			if x.X == ssa.Value(gap) && fromLen(x.Index) {
-				lastTested = true
+			if derivedFromGap(x.X) {
+				if sub, ok := x.Index.(*ssa.BinOp); ok && sub.Op == token.SUB && lenArgOf(sub.X) != nil {
+					lastTested = true
+				}
 			}
 		}
 	})
@@ -1078,9 +1117,9 @@ func checkGapComparedInFull(c *Ctx) {
 	case nSlices == 0:
 		r.Bad("C27.R4", fid, "whole gap", pos, "UNRESOLVED-ANCHOR: the gap is not sliced")
 	case bad != "" || !lastTested:
-		r.Bad("C27.R4", fid, "whole gap", pos, "the excluded /Contents gap is not compared in full (range end not len(gap)-1, or the last gap byte is not tested): bytes behind the matched prefix are neither signed nor checked, which admits signature wrapping (a duplicate /ByteRange hidden in the gap)")
+		r.Bad("C27.R4", fid, "whole gap", pos, "the excluded /Contents gap is not compared in full (a bound of the compared range is the result of a search inside the gap, or the last gap byte is not tested): bytes behind the matched prefix are neither signed nor checked, which admits signature wrapping (a duplicate /ByteRange hidden in the gap)")
 	default:
-		r.OK("C27.R4", fid, "whole gap", pos, "the compared range is gap[1:len(gap)-1] and gap[len(gap)-1] is tested", true)
+		r.OK("C27.R4", fid, "whole gap", pos, "no bound of the compared range comes from a search inside the gap, and the last gap byte (index len-1) is tested", true)
 	}
 }
 
